@@ -18,7 +18,10 @@
 (* destinations stay inside the valid frames, that the code-shaped mask    *)
 (* equals the declarative one and lies inside the valid frames, and that   *)
 (* the quantised grid of a warp whose destination lies strictly inside the *)
-(* valid frames is non-decreasing and pinned.                              *)
+(* valid frames is non-decreasing and pinned, and that a read of the       *)
+(* border-padded bilinear sampler stays inside the hull of the plane it    *)
+(* reads (HullOK, the abstraction that decides "no warp of any order       *)
+(* yields a non-finite value or one outside the range of its input").      *)
 (*                                                                         *)
 (* Units: proportions are multiples of 1/4 (p4 = 4p); warp quantities are  *)
 (* in HALF frames (mw2 = 2 * max_warp; a real value x is represented by    *)
@@ -31,7 +34,9 @@ CONSTANTS MaxT, MaxF,   \* draw universe: length 1..MaxT, F in 1..MaxF
           Props4,       \* values of 4 * proportion
           Nums,         \* values of num_time_mask / num_freq_mask
           Warps2,       \* values of 2 * max_*_warp
-          ApplyT, ApplyF, ApplyMasks   \* apply universe: T <= ApplyT, F <= ApplyF, <= ApplyMasks masks per axis
+          ApplyT, ApplyF, ApplyMasks,  \* apply universe: T <= ApplyT, F <= ApplyF, <= ApplyMasks masks per axis
+          HullVals, HullOff, HullDen   \* hull universe: cell values v - HullOff, v \in HullVals; read positions
+                                       \* in units of 1 / HullDen of a cell
 
 MinOf2(x, y) == IF x <= y THEN x ELSE y
 MaxOf2(x, y) == IF x >= y THEN x ELSE y
@@ -76,16 +81,50 @@ Masked(T, F, t0, t, f0, f) ==
 
 \* half-frame abstraction of the linear warp's sampling grid over the valid frames:
 \* q[i] = floor(2 * source position read by frame i - 1), i = 1..L
-GridOK(q, L) ==
-  /\ Len(q) = L
-  /\ \A i \in 1..(L - 1) : q[i] <= q[i + 1]                   \* reads the frames in non-decreasing order
-  /\ -1 <= q[1] /\ q[1] <= 1                                  \* begins within half a frame of frame 0
-  /\ 2 * (L - 1) - 1 <= q[L] /\ q[L] <= 2 * (L - 1) + 1       \* ends within half a frame of frame L-1
+\* (the three clauses separately, so that a rejected grid can be classified by the specification)
+GridOrderOK(q, L) == Len(q) = L /\ \A i \in 1..(L - 1) : q[i] <= q[i + 1]      \* reads the frames in non-decreasing order
+GridFirstOK(q, L) == Len(q) = L /\ -1 <= q[1] /\ q[1] <= 1                     \* begins within half a frame of frame 0
+GridLastOK(q, L) ==                                                           \* ends within half a frame of frame L-1
+  Len(q) = L /\ 2 * (L - 1) - 1 <= q[L] /\ q[L] <= 2 * (L - 1) + 1
+GridOK(q, L) == GridOrderOK(q, L) /\ GridFirstOK(q, L) /\ GridLastOK(q, L)
+
+(***************************************************************************)
+(* "No warp of any order yields a non-finite value or one outside the      *)
+(* range of its input", at the abstraction level.                          *)
+(*                                                                         *)
+(* Rationale.  Whatever the interpolation order (it only shapes the        *)
+(* sampling grid, through the polyharmonic spline of warp_1d_grid), the    *)
+(* warp itself RESAMPLES each batch element's (T, F) plane: every output   *)
+(* cell is the bilinear interpolation of the plane at one grid position,   *)
+(* and a position outside the plane is clipped to its border ("border"     *)
+(* padding).  Hence every output cell is a convex combination of cells OF  *)
+(* THE SAME ELEMENT'S input plane - the whole padded plane, not only the   *)
+(* valid frames: a read beyond the valid length lands in the padding of    *)
+(* the same element, never in another element - and is therefore finite    *)
+(* and inside [min, max] of that plane.  The masks then overwrite cells    *)
+(* with zeros; those cells are excluded (they are decided by Masked).      *)
+(*                                                                         *)
+(* Units: 1 / 1024 of a feature unit.  inlo, inhi = 1024 * min / max of    *)
+(* the element's input plane (exact: the features are integer-valued);     *)
+(* outlo = floor(1024 * min), outhi = ceil(1024 * max) over the NON-masked *)
+(* output cells of the element (= inlo, inhi when every cell is masked);   *)
+(* finite = 1 iff every output cell of the element is finite.  In exact    *)
+(* arithmetic outlo >= inlo and outhi <= inhi (design invariant            *)
+(* HullAbstraction below); ONE unit of slack is granted to the floating    *)
+(* point rounding of the interpolation weights (relative error ~ 2^-23 per *)
+(* operation in single precision, on values far below 2^13: several orders *)
+(* of magnitude less than 2^-10).                                          *)
+(***************************************************************************)
+HullOK(order, finite, inlo, inhi, outlo, outhi) ==
+  /\ order >= 1                                               \* any order
+  /\ finite = 1                                               \* no non-finite value
+  /\ inlo <= inhi
+  /\ outlo >= inlo - 1 /\ outhi <= inhi + 1                   \* inside the range of its input
 
 (***************************************************************************)
 (* Code-shaped side                                                        *)
 (***************************************************************************)
-VARIABLES kind,   \* "tmask" | "fmask" | "warp" | "apply" | "grid"
+VARIABLES kind,   \* "tmask" | "fmask" | "warp" | "apply" | "grid" | "hull"
           cfg,    \* configuration record of the kind
           len,    \* valid length (tmask, warp, apply, grid) or F (fmask)
           par,    \* drawn parameters so far (record)
@@ -109,6 +148,9 @@ Init ==
      \/ kind = "grid" /\ len \in 2..MaxT
                       /\ cfg \in {[s2 |-> a, d2 |-> b] : a \in 0..(2 * MaxT), b \in 1..(2 * MaxT)}
                       /\ cfg.s2 <= 2 * (len - 1) /\ cfg.d2 < 2 * (len - 1)
+     \/ kind = "hull" /\ len = 2                              \* a 2 x 2 plane <<v00, v01, v10, v11>>
+                      /\ cfg \in {[v |-> vv, x |-> a, y |-> b] : vv \in [1..4 -> HullVals],
+                                    a \in (-HullDen)..(2 * HullDen), b \in (-HullDen)..(2 * HullDen)}
 
 \* --- time masks: max_ = floor(min(len * p, max_time_mask)), nums_ likewise; widths are
 \* floor(u * (max_ + 1 - eps)) in 0..max_, zeroed for mask indices >= nums_; then the starts are
@@ -194,8 +236,25 @@ ComputeGrid ==
   /\ phase' = "done"
   /\ UNCHANGED <<kind, cfg, len, zero>>
 
+\* --- one read of the resampler (grid_sample, bilinear, padding_mode = "border"): the position
+\* (cfg.x, cfg.y) / HullDen, in cell units, possibly outside the plane, is clipped to the plane, then
+\* the four surrounding cells are mixed with the bilinear weights; exact rationals over HullDen^2,
+\* quantised to 1 / 1024 the way the harness quantises an output cell (par.q = <<floor, ceiling>>)
+ClipTo(x, lo, hi) == IF x < lo THEN lo ELSE IF x > hi THEN hi ELSE x
+HullCell(k) == cfg.v[k] - HullOff
+ComputeHull ==
+  /\ kind = "hull" /\ phase = "start"
+  /\ LET D == HullDen
+         a == ClipTo(cfg.x, 0, D)
+         b == ClipTo(cfg.y, 0, D)
+         num == (D - a) * (D - b) * HullCell(1) + (D - a) * b * HullCell(2)
+                  + a * (D - b) * HullCell(3) + a * b * HullCell(4)
+     IN par' = [par EXCEPT !.q = <<QFloor(<<1024 * num, D * D>>), -QFloor(<<-(1024 * num), D * D>>)>>]
+  /\ phase' = "done"
+  /\ UNCHANGED <<kind, cfg, len, zero>>
+
 Next == \/ DrawTimeWidths \/ DrawTimeStarts \/ DrawFreqWidths \/ DrawFreqStarts
-        \/ DrawWarpCentre \/ DrawWarpShift \/ ApplyDraw \/ Apply \/ ComputeGrid
+        \/ DrawWarpCentre \/ DrawWarpShift \/ ApplyDraw \/ Apply \/ ComputeGrid \/ ComputeHull
 Spec == Init /\ [][Next]_vars
 
 (***************************************************************************)
@@ -238,6 +297,19 @@ ApplyIsMasked == (kind = "apply" /\ Done) =>
 \* the abstraction of the linear warp: monotone and pinned whenever the destination is strictly
 \* inside the valid frames
 GridAbstraction == (kind = "grid" /\ Done) => GridOK(par.q, len)
+\* the abstraction of the resampler: a read at ANY position, inside or outside the plane, is accepted
+\* by HullOK - in exact arithmetic without the unit of slack -, and a read at a cell returns that cell
+\* (so the range of the input is attained: the bound cannot be tightened)
+HullAbstraction == (kind = "hull" /\ Done) =>
+  LET cells == {HullCell(k) : k \in 1..4}
+      lo == 1024 * (CHOOSE m \in cells : \A o \in cells : m <= o)
+      hi == 1024 * (CHOOSE m \in cells : \A o \in cells : m >= o)
+  IN /\ HullOK(1, 1, lo, hi, par.q[1], par.q[2])
+     /\ lo <= par.q[1] /\ par.q[1] <= par.q[2] /\ par.q[2] <= hi
+     /\ (cfg.x <= 0 /\ cfg.y <= 0) => par.q = <<1024 * HullCell(1), 1024 * HullCell(1)>>
+     /\ (cfg.x >= HullDen /\ cfg.y >= HullDen) => par.q = <<1024 * HullCell(4), 1024 * HullCell(4)>>
+     /\ ~HullOK(1, 0, lo, hi, par.q[1], par.q[2])             \* a non-finite value is never accepted
+     /\ ~HullOK(1, 1, lo, hi, lo - 2, hi) /\ ~HullOK(1, 1, lo, hi, lo, hi + 2)
 
 (***************************************************************************)
 (* Export (spec -> code): mask applications                                *)
